@@ -2,9 +2,9 @@
    Only statements, closed by [exact lemma], with Print Assumptions beneath. *)
 From Coq Require Import String List NArith Bool.
 From J5V.lib Require Import Outcome.
-From J5V.model Require Import Conc ConcKey ConcSites ConcCorr ConcRace ConcStatement ConcState ConcRW ConcHB ConcProbe ConcCodec ConcProperty.
+From J5V.model Require Import Conc ConcKey ConcSites ConcCorr ConcRace ConcStatement ConcState ConcRW ConcHB ConcProbe ConcCodec ConcProperty ConcWalk.
 From J5V.gen Require ConcGen ConcStateGen.
-From J5V.proofs Require Import ConcProofs ConcLeafProofs ConcInvProofs ConcTermProofs ConcMainProofs ConcRetProofs ConcRaceProofs ConcFullProofs ConcKeyProofs ConcRWProofs ConcHBProofs ConcProbeProofs ConcCodecProofs ConcPropertyProofs.
+From J5V.proofs Require Import ConcProofs ConcLeafProofs ConcInvProofs ConcTermProofs ConcMainProofs ConcRetProofs ConcRaceProofs ConcFullProofs ConcKeyProofs ConcRWProofs ConcHBProofs ConcProbeProofs ConcCodecProofs ConcPropertyProofs ConcWalkProofs.
 Import ListNotations.
 Local Open Scope N_scope.
 
@@ -624,6 +624,29 @@ Example C10_guarded_encode_example :
   In (1%nat, 3, 2%nat) (rets Guarded 3 ex_w2_graph ex_w2_calls sched) /\
   encode_call ex_nm ex_denote ex_fmt ex_any 3 (heap (s_sh st)) 2%nat 3 ex_msg = Ok [123; 34; 114; 48; 34; 58; 123; 125; 125].
 Proof. exact guarded_encode_example. Qed.
+
+(* ---- the lock-free part of codec calls as accesses to shared cells (from the census) ------------- *)
+(* ConcWalk.walk_events t: what goroutine t's encode / decode / query-decode does outside Schema to cells
+   reachable from long-lived objects or package-level variables — the reads in lf_read_fields and every
+   write the census attributes to a lock-free function.  There is no synchronisation between the walks of
+   different goroutines, so a conflicting pair would be a data race (or, with atomics, per-call state
+   shared between calls).  On the regenerated census: none, for any two goroutines. *)
+Theorem C10_codec_walks_conflict_free : forall t1 t2 e1 e2,
+  In e1 (walk_events t1 ConcStateGen.lockfree_fns ConcStateGen.lf_read_fields ConcStateGen.state_writes) ->
+  In e2 (walk_events t2 ConcStateGen.lockfree_fns ConcStateGen.lf_read_fields ConcStateGen.state_writes) ->
+  ~ wconflict e1 e2.
+Proof. exact code_walks_conflict_free. Qed.
+Print Assumptions C10_codec_walks_conflict_free.
+
+(* with the row of a nesting counter kept on the shared Codec (seeded C10-F) two decodes in flight conflict *)
+Theorem C10_shared_counter_is_a_conflict :
+  lf_writes_nothing ConcStateGen.lockfree_fns shared_counter_writes = false /\
+  exists e1 e2,
+    In e1 (walk_events 0%nat ConcStateGen.lockfree_fns ConcStateGen.lf_read_fields shared_counter_writes) /\
+    In e2 (walk_events 1%nat ConcStateGen.lockfree_fns ConcStateGen.lf_read_fields shared_counter_writes) /\
+    wconflict e1 e2.
+Proof. exact shared_counter_conflicts. Qed.
+Print Assumptions C10_shared_counter_is_a_conflict.
 
 (* ---- the property as a whole ------------------------------------------------------------------ *)
 (* ConcProperty.C10_property pol d: "each call returns what it returns alone" over EVERY key function (type
